@@ -849,7 +849,14 @@ impl File {
 
             // Check capacity
             let current_len = ctx.fs.file_len(&path);
-            let write_end = offset + buf.len() as u64;
+            // A range that runs past the end of the offset space is rejected
+            // the way the kernel rejects an invalid offset (EINVAL).
+            let Some(write_end) = offset.checked_add(buf.len() as u64) else {
+                return Err(Error::new(
+                    ErrorKind::InvalidInput,
+                    "offset + length overflows the file offset range",
+                ));
+            };
             let additional = write_end.saturating_sub(current_len);
             if additional > 0 {
                 ctx.fs.check_space(additional).map_err(Error::other)?;
@@ -929,13 +936,15 @@ impl std::io::Seek for File {
         });
 
         let new_pos = match pos {
-            std::io::SeekFrom::Start(offset) => offset as i64,
+            std::io::SeekFrom::Start(offset) => Some(offset as i64),
             std::io::SeekFrom::End(offset) => {
-                file_len.ok_or_else(|| Error::new(ErrorKind::NotFound, "file not found"))? as i64
-                    + offset
+                (file_len.ok_or_else(|| Error::new(ErrorKind::NotFound, "file not found"))? as i64)
+                    .checked_add(offset)
             }
-            std::io::SeekFrom::Current(offset) => *cursor as i64 + offset,
+            std::io::SeekFrom::Current(offset) => (*cursor as i64).checked_add(offset),
         };
+        // An overflowing target is as invalid as a negative one (EINVAL / EOVERFLOW).
+        let new_pos = new_pos.unwrap_or(-1);
 
         if new_pos < 0 {
             return Err(Error::new(
